@@ -97,6 +97,11 @@ CONFIGS = {
     ]),
 }
 
+# free-running traces through the real query.WorkManager: (number of scenarios, share of peers that stay
+# silent after their script instead of disconnecting - each costs the dispatcher's 2 s+ job timeout)
+FREE = {("C05", "quick"): (48, 0.0), ("C05", "thorough"): (400, 0.05),
+        ("C06", "quick"): (48, 0.0), ("C06", "thorough"): (400, 0.05)}
+
 INVARIANTS = {"FilterQuery": ["TypeOK", "SingleFlight", "StoredCommitted"], "BlockQuery": ["TypeOK"]}
 
 ASSUMPTIONS = {
@@ -145,6 +150,126 @@ def label(act):
         else:
             s = op
     return s + "=" + str(act.get("res"))
+
+
+
+# --------------------------------------------------------------------------
+# Free-running traces: the real query.WorkManager with scripted mock peers.
+# --------------------------------------------------------------------------
+FQ_IN = ("op", "c", "tgt", "m", "cap", "b")
+BQ_IN = ("op", "tgt", "b", "p")
+
+
+def _same_input(module, a, m):
+    keys = FQ_IN if module == "FilterQuery" else BQ_IN
+    if any(a.get(k) != m.get(k) for k in keys):
+        return False
+    ka, km = a.get("k"), m.get("k")
+    if module == "FilterQuery" and {ka, km} <= {"true", "dup"}:
+        return True          # a repeated true filter is the model's "dup"
+    return ka == km
+
+
+def validate_trace(module, g, trace):
+    """Is the recorded trace a behaviour of the specification?  Walks TLC's
+    exhaustive state graph along the recorded inputs and compares the recorded
+    outcome and observables with the model's.  Returns None or a description."""
+    node = None
+    for n, o in g.inits:
+        if o == trace["init_obs"]:
+            node = n
+    if node is None:
+        return {"step": 0, "what": "no initial state of the model has these observables"}
+    for i, st in enumerate(trace["steps"]):
+        a = st["act"]
+        cands = [g.edges[e] for e in g.out[node] if _same_input(module, a, g.edges[e][1])]
+        if not cands:
+            return {"step": i + 1, "what": "the model has no such step here", "act": a}
+        hit = None
+        for e in cands:
+            m = dict(e[1])
+            if module == "FilterQuery":
+                m["k"] = a.get("k")
+            if m == a and e[3] == st["obs"]:
+                hit = e
+        if hit is None:
+            return {"step": i + 1, "what": "outcome differs from the model", "code_act": a,
+                    "code_obs": st["obs"], "model_act": cands[0][1], "model_obs": cands[0][3]}
+        node = hit[2]
+    return None
+
+
+def _fq_range(h, m, cp, ftip):
+    bs = cp if 0 < cp < 1000 else 1000
+    s0 = h - bs + 1 if m == "rev" else h
+    e0 = h + bs - 1 if m == "fwd" else h
+    return max(s0, 1), min(e0, ftip)
+
+
+def free_scenarios(module, consts, n, rng, silent_share):
+    """n scenario lines (dicts with init_obs and free) inside the bounds of consts."""
+    out = []
+    ev = lambda x: eval(x.replace("{", "[").replace("}", "]").replace("TRUE", "True").replace("FALSE", "False"))
+    for _ in range(n):
+        if module == "BlockQuery":
+            nb, np_, mc = consts["NB"], consts["NP"], consts["MaxCalls"]
+            init = {"ret": -9, "cache": [0] * nb, "cx": 0, "banned": [0] * np_}
+            calls = []
+            for _c in range(rng.randint(1, mc)):
+                tgt = rng.choice(list(range(1, nb + 1)) * 4 + [nb + 1])
+                peers, first = [], True
+                order = list(range(1, np_ + 1))
+                for p in order:
+                    script = []
+                    for j in range(rng.randint(0, 3)):
+                        ks = ["intact", "other", "mutated", "added", "removed", "stripped", "forged", "nonblock"]
+                        if j > 0:       # the dispatcher decides which peer is asked first
+                            ks.append("dup")
+                        k = rng.choice(ks)
+                        b = tgt
+                        if k == "other":
+                            b = rng.choice([x for x in range(1, nb + 2) if x != tgt])
+                        elif k == "nonblock":
+                            b = 0
+                        elif k == "dup":
+                            b = -1          # resolved by the driver / the walk
+                        script.append({"k": k, "b": b})
+                    first = False
+                    peers.append({"p": p, "script": script,
+                                  "end": "silent" if rng.random() < silent_share else "disconnect"})
+                calls.append({"tgt": tgt, "m": "", "cap": 0, "retries": np_, "peers": peers})
+            out.append({"init_obs": init, "free": {"calls": calls}})
+        else:
+            bt = consts["BTip"]
+            ftip = rng.choice(ev(consts["FTips"]))
+            persist = rng.choice(ev(consts["Persists"]))
+            init = {"ret": [-9, -9], "cache": [0] * (bt + 1), "db": [1] + [0] * bt, "wq": [0] * (bt + 1),
+                    "cx": 0, "dx": 0, "wx": 0, "btip": bt, "ftip": ftip, "persist": 1 if persist else 0}
+            tgt = rng.choice(ev(consts["Targets1"]))
+            m = rng.choice(ev(consts["Modes1"]))
+            cp = rng.choice(ev(consts["Caps1"]))
+            lo, hi = _fq_range(tgt, m, cp, ftip)
+            inr = list(range(lo, hi + 1))
+            peers = []
+            for p in (1, 2, 3):
+                script = []
+                for j in range(rng.randint(0, 4)):
+                    k = rng.choice(["true", "true", "true", "wrong", "malformed", "wrongtype", "noncf"])
+                    if k == "true":
+                        b = rng.choice(inr * 3 + list(range(0, bt + 1))) if inr else rng.randint(0, bt)
+                    elif k == "noncf":
+                        b = 0
+                    else:
+                        pool = list(range(1, bt + 1)) if consts["BadAll"] else inr
+                        if not pool:
+                            continue
+                        b = rng.choice(pool)
+                    script.append({"k": k, "b": b})
+                peers.append({"p": p, "script": script,
+                              "end": "silent" if rng.random() < silent_share else "disconnect"})
+            out.append({"init_obs": init,
+                        "free": {"calls": [{"tgt": tgt, "m": m, "cap": cp, "retries": 3, "peers": peers}]}})
+    return out
 
 
 class _Merged:
@@ -223,6 +348,57 @@ def run(prop_id, tier, seed, replay=None):
                 else:
                     state["observed"].append(_shrink(t))
 
+        free = FREE.get((prop_id, tier))
+
+        def free_run(g, consts, spec_free):
+            n, silent = spec_free
+            t1 = time.time()
+            fpf = os.path.join(sc, "free.ndjson")
+            scen = {}
+            with open(fpf, "w") as f:
+                for i, d in enumerate(free_scenarios(module, consts, n, rng, silent)):
+                    d["id"] = 10 ** 7 + i
+                    d["steps"] = []
+                    scen[d["id"]] = d["free"]
+                    f.write(json.dumps(d) + "\n")
+            traces, log = family.run_driver(binary, test, fpf, fpf + ".obs", sc,
+                                            env_extra={"VERIF_SEED": str(seed)})
+            traces.sort(key=lambda t: t["id"])
+            # the "dup" letter: the driver resolves it to the previous message; give it the model's b
+            for t in traces:
+                last_b = 0
+                for st in t["steps"]:
+                    a = st["act"]
+                    if module == "BlockQuery" and a["op"] == "Resp":
+                        if a["k"] == "dup":
+                            a["b"] = last_b
+                        last_b = a["b"]
+                    elif module == "BlockQuery" and a["op"] == "HeaderLookup":
+                        last_b = 0
+            v = family.judge([spec], module + "Props", PROPS[prop_id], prop_id, traces, label=label)
+            vd = state["verdict"]
+            vd["violations"].extend(v["violations"])
+            vd["n_lines"] += v["n_lines"]
+            for kid, k in v["known"].items():
+                vd["known"].setdefault(kid, k)
+            rejected = []
+            for t in traces:
+                if t.get("error"):
+                    continue
+                r = validate_trace(module, g, t)
+                if r:
+                    r["trace"] = t["id"]
+                    r["scenario"] = scen.get(t["id"])
+                    r["labels"] = [label(x["act"]) for x in t["steps"][:r["step"]]]
+                    rejected.append(r)
+            state["free"] = {"traces": len(traces), "steps": sum(len(t["steps"]) for t in traces),
+                             "not_a_behaviour_of_the_spec": len(rejected), "samples": rejected[:3],
+                             "wall_s": round(time.time() - t1, 1),
+                             "example": [label(x["act"]) for x in traces[0]["steps"]] if traces else []}
+            state["drift"][1] += len(rejected)
+            state["drift"][2] = (state["drift"][2] + [dict(r, what="free-running trace: " + r["what"]) for r in rejected])[:5]
+            state["free_obs"] = [_shrink(t) for t in traces]
+
         if replay:
             pf = os.path.join(sc, "paths.ndjson")
             family.paths_from_replay(replay, pf)
@@ -253,6 +429,8 @@ def run(prop_id, tier, seed, replay=None):
                 tmp = os.path.join(sc, "p-%s.ndjson" % name)
                 core.write_paths(g, paths, tmp)
                 merged.add(tlc, g)
+                if free and name == scenarios[0][0]:
+                    free_run(g, consts, free)
                 info[name] = {"constants": consts, "states": tlc.distinct, "edges": len(g.edges),
                               "paths": len(paths), "tlc_wall_s": round(tlc.wall, 1),
                               "model_violating_edges": sum(1 for e in g.edges if e[4])}
@@ -280,9 +458,10 @@ def run(prop_id, tier, seed, replay=None):
             tlc_m, g_m = merged, merged
         phases = {k: round(v, 1) for k, v in phases.items()}
         return family.finish(prop_id, tier, seed, t0, tlc_m, g_m, list(range(state["n_paths"])),
-                             state["observed"], state["verdict"], tuple(state["drift"]),
+                             state["observed"] + state.get("free_obs", []), state["verdict"],
+                             tuple(state["drift"]),
                              {"scenarios": info, "edges_only_reachable_through_model_violation": state["unreach"],
-                              "phases": phases,
+                              "phases": phases, "free_running": state.get("free"),
                               "response_variants_exercised": dict(sorted(state["variants"].items()))},
                              ASSUMPTIONS[prop_id], label=label)
     finally:
